@@ -158,7 +158,27 @@ pub fn check_iteration(acc: &mut Acc, entry: &str, section: &[u8], mut it: v2::T
     let mut got: Vec<Result<(u8, Vec<u8>), v2::ParseError>> = Vec::new();
     let mut ended = false;
     let mut steps = 0usize;
+    let small = expected.len() <= 48;
     while steps <= cap + 1 {
+        if small {
+            // the provided Iterator methods on a copy of the cursor must continue from the cursor, not restart
+            let remaining = expected.len().saturating_sub(got.len());
+            let by_count = it.take(cap + 2).count();
+            let by_fold = it.take(cap + 2).fold(0usize, |n, _| n + 1);
+            let mut by_for_each = 0usize;
+            it.take(cap + 2).for_each(|_| by_for_each += 1);
+            let direct = it.count().min(cap + 2);
+            acc.eval(4);
+            if by_count != remaining || by_fold != remaining || by_for_each != remaining || direct != remaining {
+                acc.violation(
+                    "adaptor-disagrees-with-next",
+                    entry,
+                    format!("{} items remain after {} calls to next()", remaining, got.len()),
+                    format!("take(n).count()={} fold={} for_each={} count()={}", by_count, by_fold, by_for_each, direct),
+                );
+                return;
+            }
+        }
         steps += 1;
         acc.eval(1);
         match it.next() {
